@@ -1379,8 +1379,23 @@ func (in *Interp) hasMethod(t types.Type, name string) bool {
 func registerErrorsFmt() {
 	I := intrinsics
 	sprintf := func(strict bool) intrinsic {
-		return func(in *Interp, fr *frame, fn *ssa.Function, a []value) value {
+		return func(in *Interp, fr *frame, fn *ssa.Function, a []value) (res value) {
 			format := in.mustStr(a[0], "Sprintf format")
+			// a symbolic argument makes the result an unknown string: fresh symbolic
+			// bytes (over-approximates the content; the length is a stand-in)
+			defer func() {
+				if r := recover(); r != nil {
+					if e, ok := r.(*EngineError); ok && strings.HasPrefix(e.msg, "formatting a symbolic") {
+						out := &SymStr{b: make([]*Term, 12)}
+						for i := range out.b {
+							out.b[i] = in.tc.Fresh("fmt", 8)
+						}
+						res = out
+						return
+					}
+					panic(r)
+				}
+			}()
 			var args []any
 			for _, v := range a[1].([]value) {
 				args = append(args, in.fmtArg(v, strict))
@@ -1770,6 +1785,14 @@ func registerStrings() {
 		}
 		return iface{t: i.t, v: out}
 	}
+	I["internal/bytealg.MakeNoZero"] = func(in *Interp, fr *frame, fn *ssa.Function, a []value) value {
+		n := in.concreteInt(a[0].(*Term), true, "MakeNoZero")
+		out := make([]value, n)
+		for i := range out {
+			out[i] = in.tc.Const(8, 0)
+		}
+		return out
+	}
 	I["internal/abi.NoEscape"] = func(in *Interp, fr *frame, fn *ssa.Function, a []value) value { return a[0] }
 	I["internal/abi.Escape"] = func(in *Interp, fr *frame, fn *ssa.Function, a []value) value { return a[0] }
 	I["internal/race.Enabled"] = func(in *Interp, fr *frame, fn *ssa.Function, a []value) value { return in.tc.False() }
@@ -1888,6 +1911,24 @@ func registerMisc() {
 			return Float{opaque: true}
 		}
 		return Float{v: math.Float64frombits(t.c)}
+	}
+	// back-off ticker: a channel that ticks whenever the scheduler picks it
+	I["github.com/cenkalti/backoff/v5.NewTicker"] = func(in *Interp, fr *frame, fn *ssa.Function, a []value) value {
+		pt := fn.Signature.Results().At(0).Type()
+		st := in.zero(deref(pt)).(structure)
+		ch := in.newChan(0, nil)
+		ch.always = func() value { return in.timeValue(in.clock) }
+		st[0] = ch
+		var cell value = st
+		return &cell
+	}
+	I["(*github.com/cenkalti/backoff/v5.Ticker).Stop"] = func(in *Interp, fr *frame, fn *ssa.Function, a []value) value {
+		st := (*(a[0].(*value))).(structure)
+		if ch, ok := st[0].(*Chan); ok && ch != nil {
+			ch.always = nil
+			ch.closed = true
+		}
+		return nil
 	}
 	// hashes: native on concrete bytes
 	I["crypto/sha256.New"] = func(in *Interp, fr *frame, fn *ssa.Function, a []value) value {
